@@ -35,3 +35,86 @@ Lemma bitlist_nonvacuous :
   | None => []
   end = [63; 1; 42; 0; 21; 0].
 Proof. vm_compute. reflexivity. Qed.
+
+(* ---------- the packed trie ---------- *)
+From Dae Require Import C11_Proofs C11_PackedProofs.
+From Dae.gen Require Import C11_Extracted.
+
+(* NewTrie as stored (64-bit words, sampled rank/select, CompactBitLists) answers has_prefix, for every key
+   list whose total size keeps the label bitmap below 2^64 bits *)
+Lemma packed_has_prefix :
+  forall chars keys w t, NoDup chars -> (length chars <= 256)%nat -> keys <> [] ->
+    (2 * N.of_nat (wt keys) + 1 < 2 ^ 64) ->
+    p_new chars keys = Some t -> p_has chars t w = has_prefix keys w.
+Proof.
+  intros chars keys w t ND Hlen Hne Hsize Hnew. unfold p_new in Hnew.
+  destruct (l_new chars keys) as [L|] eqn:HL; [|discriminate]. inversion Hnew; subst.
+  rewrite (packed_correct_keys chars keys w L ND Hlen Hne HL Hsize).
+  now apply louds_has_prefix.
+Qed.
+
+Lemma packed_has_prefix_nonvacuous :
+  match p_new [48;49] [[48]; [48;49]; [49;49;48]; [48]] with
+  | Some t => map (p_has [48;49] t) [[48;49;49]; [49]; [49;49]; [49;49;48;49]; []; [49;50]]
+  | None => []
+  end = [true; false; false; true; false; false].
+Proof. vm_compute. reflexivity. Qed.
+
+Fixpoint nodupb (l : list N) : bool :=
+  match l with [] => true | x :: r => negb (existsb (N.eqb x) r) && nodupb r end.
+Lemma nodupb_sound : forall l, nodupb l = true -> NoDup l.
+Proof.
+  induction l as [|x r IH]; intro H; [constructor|]. simpl in H. apply andb_true_iff in H as [H1 H2].
+  constructor; [|now apply IH]. intro Hin. apply negb_true_iff in H1.
+  assert (existsb (N.eqb x) r = true) by (apply existsb_exists; exists x; split; [exact Hin | apply N.eqb_refl]).
+  congruence.
+Qed.
+Lemma domain_chars_nodup : NoDup valid_domain_chars.
+Proof. apply nodupb_sound. vm_compute. reflexivity. Qed.
+Lemma domain_chars_len : (length valid_domain_chars <= 256)%nat.
+Proof. vm_compute. repeat constructor. Qed.
+
+Definition size_ok (keys : list str) : Prop := 2 * N.of_nat (wt keys) + 1 < 2 ^ 64.
+
+Lemma p_new_total : forall keys, keys <> [] ->
+  forallb (forallb (vc_valid valid_domain_chars)) keys = true -> size_ok keys ->
+  exists t, p_new valid_domain_chars keys = Some t.
+Proof.
+  intros keys _ H _. unfold p_new, l_new, keys_valid. rewrite H. eexists. reflexivity.
+Qed.
+
+Lemma p_has_spec : forall keys t w, keys <> [] -> size_ok keys -> p_new valid_domain_chars keys = Some t ->
+  p_has valid_domain_chars t w = has_prefix keys w.
+Proof.
+  intros keys t w Hne Hs Hn.
+  exact (packed_has_prefix valid_domain_chars keys w t domain_chars_nodup domain_chars_len Hne Hs Hn).
+Qed.
+
+(* the matcher over the trie exactly as pkg/trie stores it *)
+Definition model_answer_packed rx_ok rx sets names idxs :=
+  run valid_domain_chars rx_ok rx ac_ok_lib ac_real ptrie (p_new valid_domain_chars) (p_has valid_domain_chars)
+      sets names idxs.
+(* all keys of one bit index together stay below the 2^64-bit limit of the sampled rank/select arrays *)
+Definition sets_size_ok (sets : list pset) : Prop :=
+  forall i, size_ok (map to_suffix_trie_string (at_idx trie_keys sets i)).
+
+Lemma matcher_packed_partial : forall rx_ok rx sets names idxs,
+  kw_nonempty sets = true -> forallb name_ok names = true -> sets_size_ok sets ->
+  model_answer_packed rx_ok rx sets names idxs = spec_answer rx_ok rx sets names idxs.
+Proof.
+  intros rx_ok rx sets names idxs Hk Hn Hs. unfold model_answer_packed, spec_answer.
+  apply (matcher_correct rx_ok rx ac_ok_lib ac_real (fun _ _ => eq_refl) ac_ok_lib_plain
+           ptrie (p_new valid_domain_chars) (p_has valid_domain_chars) size_ok p_new_total p_has_spec); auto.
+Qed.
+
+Lemma matcher_packed_nonvacuous :
+  kw_nonempty ex_sets = true /\ forallb name_ok ex_names = true /\
+  model_answer_packed (fun _ => true) (fun _ _ => false) ex_sets ex_names [3; 32; 1023; 5]
+  = Some [[3; 32; 1023]; [3; 1023]; [1023]; [3; 1023]; [3; 1023]; [3]; []].
+Proof. vm_compute. repeat split; reflexivity. Qed.
+
+Lemma ex_sets_size_ok : sets_size_ok ex_sets.
+Proof.
+  intro i. unfold size_ok, at_idx, ex_sets. cbn [flat_map ps_idx fst snd].
+  destruct (3 =? i), (32 =? i), (1023 =? i); vm_compute; reflexivity.
+Qed.
